@@ -143,7 +143,7 @@ def history(ctx, lw, rng, kind):
         reconfig = ["edit", "param", "input", "circuit_same", "circuit_heralds", "herald_in_place", "rejected",
                     "failed_read", "global_threshold"]
         if kind == "Sampler":
-            reconfig += ["source_mut", "source_new", "backend", "detector"]
+            reconfig += ["source_mut", "source_new", "backend", "detector", "detector_between_draws"]
             obs = ["read", "sample", "n_inputs", "n_outputs"]
         else:
             reconfig += ["ps_new", "ps_mut", "counting"]
@@ -256,6 +256,19 @@ def history(ctx, lw, rng, kind):
                     obj.detector = emu.Detector(efficiency=float(rng.choice([1, 0.8])), photon_counting=bool(rng.random() < 0.5))
                 else:
                     obj.detector.photon_counting = not obj.detector.photon_counting
+                changed_since_obs = "detector_changed"
+            elif step == "detector_between_draws":
+                # an inefficient detector; N outputs are drawn, the detector mode is switched (in place, or by a new detector
+                # of the same efficiency), and N outputs are drawn again - each draw judged by the twin
+                obj.detector = emu.Detector(efficiency=float(rng.choice([0.5, 0.8, 0.95])), photon_counting=bool(rng.random() < 0.5))
+                obj.sample_N_outputs(int(rng.integers(20, 200)), seed=pick_seed(rng))
+                if rng.random() < 0.5:
+                    obj.detector.photon_counting = not obj.detector.photon_counting
+                else:
+                    obj.detector = emu.Detector(efficiency=obj.detector.efficiency,
+                                                photon_counting=not obj.detector.photon_counting)
+                obj.sample_N_outputs(int(rng.integers(20, 200)), seed=pick_seed(rng))
+                ctx.bucket("detector_mode_switched_between_two_draws")
                 changed_since_obs = "detector_changed"
             elif step == "ps_new":
                 k = obj.circuit.input_modes
